@@ -70,9 +70,11 @@ fn policy(n: usize, party: usize, leader: usize, out: bool, id: Uuid, prog: &str
 fn expected(n: usize, consts: bool) -> String { let s: u8 = (0..n as u8).map(|p| p + 3).sum::<u8>() + if consts { 5 } else { 0 }; format!("Ok({s})") }
 
 struct Sys { sh: Arc<Shared>, handles: Vec<PolicyStateHandle>, joins: Vec<tokio::task::JoinHandle<()>>, sems: Vec<Arc<Semaphore>> }
-fn sys(n: usize, conc: usize, controlled: bool) -> Sys {
-    let sh = Arc::new(Shared { controlled, ..Default::default() }); let (mut hs, mut js, mut sems) = (vec![], vec![], vec![]);
-    for me in 0..n { let sem = Arc::new(Semaphore::new(conc)); let (st, h) = PolicyState::new(Cl { sh: sh.clone(), me }, sem.clone()); let st = st.with_verif_id(me); js.push(tokio::spawn(st.start())); hs.push(h); sems.push(sem); }
+fn sys(n: usize, conc: usize, controlled: bool) -> Sys { sys_with((0..n).map(|_| Arc::new(Semaphore::new(conc))).collect(), 0, controlled) }
+/// one policy's actors on hosts that share the given per-host semaphores with other policies; observer ids are `id_base + party`
+fn sys_with(sems: Vec<Arc<Semaphore>>, id_base: usize, controlled: bool) -> Sys {
+    let n = sems.len(); let sh = Arc::new(Shared { controlled, ..Default::default() }); let (mut hs, mut js) = (vec![], vec![]);
+    for me in 0..n { let (st, h) = PolicyState::new(Cl { sh: sh.clone(), me }, sems[me].clone()); let st = st.with_verif_id(id_base + me); js.push(tokio::spawn(st.start())); hs.push(h); }
     sh.handles.set(hs.clone()).ok(); Sys { sh, handles: hs, joins: js, sems }
 }
 async fn settle() { for _ in 0..40 { tokio::task::yield_now().await; } tokio::time::sleep(Duration::from_millis(3)).await; for _ in 0..40 { tokio::task::yield_now().await; } }
@@ -133,6 +135,39 @@ async fn scenario2(n: usize, leader: usize, outs: &[bool], consts: bool, progs: 
     Outcome { obs: OBS.lock().unwrap().clone(), sched, outputs: s.sh.outputs.lock().unwrap().clone(), panicked, finished, permits: s.sems.iter().map(|x| x.available_permits()).collect(), msgs: s.sh.msgs.load(Ordering::SeqCst), log }
 }
 
+
+/// C17, first sentence: `k` policies on the same two hosts, which share one semaphore per host with `conc` permits; mixed leaders and destinations.
+/// Every actor step is observed together with a snapshot of every host's available permits.
+static OBS2: Mutex<Vec<(usize, String, String, String, Vec<usize>)>> = Mutex::new(Vec::new());
+static SEMS: Mutex<Vec<Arc<Semaphore>>> = Mutex::new(Vec::new());
+struct BatchOutcome { obs: Vec<(usize, String, String, String, Vec<usize>)>, outputs: Vec<Vec<(usize, String)>>, finished: Vec<Vec<bool>>, permits: Vec<usize>, sched: Vec<Vec<String>> }
+async fn batch(k: usize, conc: usize, leaders: &[usize], outs: &[Vec<bool>], r: &mut Rng) -> BatchOutcome {
+    let n = 2; let sems: Vec<Arc<Semaphore>> = (0..n).map(|_| Arc::new(Semaphore::new(conc))).collect();
+    *SEMS.lock().unwrap() = sems.clone(); OBS2.lock().unwrap().clear();
+    polytune_server_core::verif::set_observer(Some(Box::new(|id, c, b, a| { let snap: Vec<usize> = SEMS.lock().unwrap().iter().map(|s| s.available_permits()).collect(); OBS2.lock().unwrap().push((id, c.split(['(', ' ']).next().unwrap_or("").to_string(), b.to_string(), a.to_string(), snap)); })));
+    let systems: Vec<Sys> = (0..k).map(|j| sys_with(sems.clone(), 10 * j, true)).collect();
+    let mut sched_tasks = vec![];
+    for j in 0..k { let id = Uuid::from_u128(100 + j as u128); let mut order = vec![0usize, 1]; if r.bool() { order.reverse(); }
+        for p in order { let h = systems[j].handles[p].clone(); let pol = policy(n, p, leaders[j], outs[j][p], id, P2, false);
+            sched_tasks.push((j, p, tokio::spawn(async move { tokio::time::timeout(Duration::from_secs(30), h.schedule(pol)).await }))); } }
+    // one explorer per policy, all running concurrently on this thread
+    let mut rngs: Vec<Rng> = (0..k).map(|_| Rng::new(r.next())).collect();
+    let futs: Vec<_> = systems.iter().zip(rngs.iter_mut()).map(|(s, rr)| explore(s, rr, None, |_, _| None, 2500)).collect();
+    futures_join_all(futs).await;
+    let mut sched = vec![vec![String::new(); n]; k];
+    for (j, p, t) in sched_tasks { sched[j][p] = if t.is_finished() { match t.await { Ok(Ok(Ok(()))) => "Ok".into(), Ok(Ok(Err(e))) => format!("Err({})", format!("{e:?}").chars().take(50).collect::<String>()), Ok(Err(_)) => "Timeout".into(), Err(_) => "JoinErr".into() } } else { t.abort(); "Pending".into() }; }
+    let finished: Vec<Vec<bool>> = systems.iter().map(|s| s.joins.iter().map(|j| j.is_finished()).collect()).collect();
+    let outputs = systems.iter().map(|s| s.sh.outputs.lock().unwrap().clone()).collect();
+    for s in &systems { for j in &s.joins { j.abort(); } }
+    BatchOutcome { obs: OBS2.lock().unwrap().clone(), outputs, finished, permits: sems.iter().map(|x| x.available_permits()).collect(), sched }
+}
+/// minimal join_all for futures on the current thread (no extra dependency)
+async fn futures_join_all<F: std::future::Future>(futs: Vec<F>) -> Vec<F::Output> {
+    let mut futs: Vec<std::pin::Pin<Box<F>>> = futs.into_iter().map(Box::pin).collect(); let mut outs: Vec<Option<F::Output>> = futs.iter().map(|_| None).collect();
+    std::future::poll_fn(move |cx| { let mut pending = false;
+        for (i, f) in futs.iter_mut().enumerate() { if outs[i].is_none() { match f.as_mut().poll(cx) { std::task::Poll::Ready(v) => outs[i] = Some(v), std::task::Poll::Pending => pending = true } } }
+        if pending { std::task::Poll::Pending } else { std::task::Poll::Ready(outs.iter_mut().map(|o| o.take().unwrap()).collect()) } }).await
+}
 
 /// replay the observed (command, kind before, kind after) sequence of every actor through the Lean step function
 fn correspond(m: &mut model::Model, o: &Outcome, fail: Option<&str>, disagreements: &mut Vec<serde_json::Value>, steps: &mut u64) {
@@ -257,6 +292,26 @@ async fn main() {
                     if !bad.is_empty() { failures.push(json!({"witness": if kind == "run" { "C17-a:run-failure-no-destination" } else if kind == "consts" { "C17-b:consts-failure-lingers" } else { "C17:other" }, "failure": format!("after a failed {kind} RPC issued by party {c}: {}; available {:?}, finished {:?}", bad.join("; "), o.permits, o.finished), "case": json!({"n": n2, "leader": leader2, "outputs": outs2, "log": o.log, "got": o.outputs})})); }
                 }
                 if samples.len() < 2 { samples.push(json!({"n": n2, "leader": leader2, "fail": kind, "permits": o.permits, "outputs": o.outputs})); }
+                // ---- batches of policies sharing the hosts' semaphores (bound + no leak), deterministic corpus (k, concurrency) then seeded
+                if case < 4 || case % 6 == 0 {
+                    let (k, conc) = match case { 0 => (2usize, 1usize), 1 => (3, 1), 2 => (5, 2), 3 => (8, 3), _ => (2 + r.below(7) as usize, 1 + r.below(3) as usize) };
+                    let leaders_b: Vec<usize> = (0..k).map(|j| if case < 2 { 0 } else { (j + r.below(2) as usize) % 2 }).collect(); let outs_b: Vec<Vec<bool>> = (0..k).map(|_| vec![r.below(4) != 0, r.below(4) != 0]).collect();
+                    let b = batch(k, conc, &leaders_b, &outs_b, &mut r).await; execs += 1; *dist.entry(format!("batch:k{k}/c{conc}")).or_default() += 1; distinct.insert(format!("batch {k} {conc} {leaders_b:?} {outs_b:?}"));
+                    let mut bad = vec![]; let want = expected(2, false);
+                    // per host: leaders that certainly hold a permit (between acquiring it inside `schedule` and handing it to the MPC task)
+                    let mut kind_of: HashMap<usize, String> = HashMap::new(); let mut max_certain = vec![0usize; 2];
+                    for (id, cmd, _before, after, snap) in &b.obs { kind_of.insert(*id, after.clone());
+                        let _ = cmd;
+                        for host in 0..2 { let certain = (0..k).filter(|j| leaders_b[*j] == host && matches!(kind_of.get(&(10 * j + host)).map(|s| s.as_str()), Some("Validated") | Some("SendingConsts") | Some("SendingConstsCompleted") | Some("Running"))).count();
+                            max_certain[host] = max_certain[host].max(certain);
+                            if certain > conc && bad.len() < 3 { bad.push(format!("host {host}: {certain} leader computations hold a permit at once, concurrency is {conc}")); }
+                            if snap[host] > conc || conc - snap[host] < certain && bad.len() < 3 { bad.push(format!("host {host}: {certain} leaders are past the permit point but only {} permits are taken", conc - snap[host].min(conc))); } } }
+                    if b.permits.iter().any(|p| *p != conc) { bad.push(format!("permits after the batch: {:?}, budget {conc}", b.permits)); }
+                    for j in 0..k { if b.sched[j].iter().any(|x| x != "Ok") { bad.push(format!("policy {j}: schedule results {:?}", b.sched[j])); } if b.finished[j].iter().any(|f| !f) { bad.push(format!("policy {j}: state machines not stopped {:?}", b.finished[j])); }
+                        for p in 0..2 { let got: Vec<&String> = b.outputs[j].iter().filter(|(q, _)| *q == p).map(|(_, s)| s).collect(); if outs_b[j][p] && got != vec![&want] { bad.push(format!("policy {j} party {p}: destination got {got:?}")); } } }
+                    if !bad.is_empty() { failures.push(json!({"witness": "C17:batch", "failure": bad.iter().take(4).collect::<Vec<_>>(), "case": json!({"policies": k, "concurrency": conc, "leaders": leaders_b, "outputs": outs_b})})); }
+                    if samples.len() < 3 { samples.push(json!({"batch": {"policies": k, "concurrency": conc, "leaders": leaders_b, "max_certain_holders_per_host": max_certain, "permits_after": b.permits, "observed_steps": b.obs.len()}})); }
+                }
             }
             _ => { eprintln!("unknown property"); std::process::exit(2); }
         }
